@@ -264,6 +264,7 @@ func (c18) Table(rows []Ev, tier string, seed int64, rep *TableReport) {
 		return out
 	}
 	for ri, row := range rows {
+		tick([]Ev{row})
 		sr := &scriptReader{}
 		for _, x := range toList(row["script"]) {
 			m := asMap(x)
